@@ -122,6 +122,22 @@ def run(ctx):
     rep.assumptions = ['Python re enters the model as an oracle table (complete cross product per case)',
                        'object aliasing not modelled']
     P.run_cases(ctx, PROCS, oracle, ctx.n(900, 12000))
+
+    def key_heavy(rng, proc, desc, rows, a):
+        """primary keys drawn from small pools of values that are equal without being identical (True / 1 / 1.0) or
+        different with equal hashes (-1 / -2, 0 / 2**61-1): first occurrence of each distinct key, nothing else"""
+        import decimal
+        ints = [-1, -2, 0, 2 ** 61 - 1, 1, 2, None]
+        nums = [decimal.Decimal('-1'), decimal.Decimal('-2'), decimal.Decimal('1'), decimal.Decimal('1.0'), decimal.Decimal('0'), None]
+        resources, rws = [], []
+        for name in S.res_names(desc)[:2]:
+            pk = rng.choice([['k1'], ['k1', 'k2'], ['k2'], ['s', 'k1']])
+            resources.append({'name': name, 'fields': [('k1', 'integer'), ('k2', 'number'), ('s', 'string'), ('v', 'integer')], 'pk': pk})
+            rws.append([{'k1': rng.choice(ints), 'k2': rng.choice(nums), 's': rng.choice(['A', 'a', '']), 'v': i}
+                        for i in range(rng.choice([2, 6, 12]))])
+        d2 = canon.make_descriptor(resources)
+        return d2, rws, {'sel': S.gen_sel(rng, S.res_names(d2), allow_bad=False)}
+    P.run_cases(ctx, ['deduplicate'], oracle, ctx.n(150, 2000), salt='key-heavy', gen_hook=key_heavy)
     return ctx.finish(search=P.search_from_disagreements(ctx, oracle, PROCS))
 
 
